@@ -5,7 +5,7 @@
    below holds for ALL oracles. *)
 From Coq Require Import String List ZArith Bool.
 Require Import Blots.Num Blots.gen.Builtins Blots.Ast Blots.gen.ParensTable Blots.Formatter
-  Blots.proofs.Comments Blots.proofs.Scan Blots.proofs.ScanFmt.
+  Blots.proofs.Comments Blots.proofs.Scan Blots.proofs.ScanFmt Blots.proofs.DriverText.
 Import ListNotations.
 Open Scope string_scope.
 Open Scope list_scope.
@@ -145,4 +145,38 @@ Example C09_text_comments_hypotheses_satisfiable :
 Proof.
   split; [exact record_key_impl_neutral|]. split; [reflexivity|].
   vm_compute. repeat constructor.
+Qed.
+
+(* the property at text level for both drivers: the comments a lexer-level scan finds in the text
+   the driver emits are the program's comments (expression-level, standalone and end-of-line), in
+   order.  stmt_ok = per statement the hypotheses of C09_fmtd_text_comments at the driver's width,
+   comments are comment texts, and a comment statement has no second comment. *)
+Theorem C09_lib_driver_text_comments :
+  forall e2s np rk key_ok, (forall k, key_ok k = true -> neutral (rk k)) ->
+  forall mw p d, Forall (stmt_ok e2s np rk key_ok mw) p ->
+  format_lib e2s np rk mw p = Some d -> scan_comments (render d) = program_comments p.
+Proof. exact lib_driver_text_comments. Qed.
+Check C09_lib_driver_text_comments :
+  forall e2s np rk key_ok, (forall k, key_ok k = true -> neutral (rk k)) ->
+  forall mw p d, Forall (stmt_ok e2s np rk key_ok mw) p ->
+  format_lib e2s np rk mw p = Some d -> scan_comments (render d) = program_comments p.
+Print Assumptions C09_lib_driver_text_comments.
+
+Theorem C09_cli_driver_text_comments :
+  forall e2s np rk key_ok, (forall k, key_ok k = true -> neutral (rk k)) ->
+  forall p, Forall (stmt_ok e2s np rk key_ok None) p ->
+  scan_comments (render (format_cli e2s np rk p)) = program_comments p.
+Proof. exact cli_driver_text_comments. Qed.
+Check C09_cli_driver_text_comments :
+  forall e2s np rk key_ok, (forall k, key_ok k = true -> neutral (rk k)) ->
+  forall p, Forall (stmt_ok e2s np rk key_ok None) p ->
+  scan_comments (render (format_cli e2s np rk p)) = program_comments p.
+Print Assumptions C09_cli_driver_text_comments.
+
+(* a two-statement program satisfying stmt_ok with the executable oracles *)
+Example C09_driver_hypotheses_satisfiable :
+  Forall (stmt_ok ex_e2s (needs_parens_tbl parens_table) record_key_impl is_valid_identifier None)
+    [St (SComment "// top") None 1 1; St (SExpr ex_commented) (Some "// eol") 2 12].
+Proof.
+  repeat constructor; try reflexivity; vm_compute; repeat constructor.
 Qed.
